@@ -25,12 +25,17 @@ pub enum Tag {
     /// with one child or none; both have the same Rust type)
     OptSome,
     OptNone,
+    /// `#[compound] struct Holder2(LTerm, Option<LTerm>)`: a term field BEFORE the Option field
+    Holder2,
+    /// `#[compound] struct Outer { tag: LTerm, leaf: Named }`: a field whose declared type is
+    /// another (named-field) compound
+    Outer,
 }
 
 impl Tag {
     pub fn arity(self) -> usize {
         match self {
-            Tag::Pair | Tag::Pair2 | Tag::Named | Tag::Rec | Tag::Tuple | Tag::Holder => 2,
+            Tag::Pair | Tag::Pair2 | Tag::Named | Tag::Rec | Tag::Tuple | Tag::Holder | Tag::Holder2 | Tag::Outer => 2,
             Tag::Box1 | Tag::Some | Tag::OptSome => 1,
             Tag::OptNone => 0,
         }
@@ -47,9 +52,11 @@ impl Tag {
             Tag::Holder => "Holder",
             Tag::OptSome => "OptSome",
             Tag::OptNone => "OptNone",
+            Tag::Holder2 => "Holder2",
+            Tag::Outer => "Outer",
         }
     }
-    pub const ALL: [Tag; 10] = [
+    pub const ALL: [Tag; 12] = [
         Tag::Pair,
         Tag::Pair2,
         Tag::Box1,
@@ -60,6 +67,8 @@ impl Tag {
         Tag::Holder,
         Tag::OptSome,
         Tag::OptNone,
+        Tag::Holder2,
+        Tag::Outer,
     ];
 }
 
